@@ -10,7 +10,7 @@ import re
 
 from .. import common
 from ..common import Check, mk_case, snip
-from ..gen import progs
+from ..gen import feat_scope, progs
 from . import modelcheck
 
 
@@ -60,6 +60,8 @@ def run(tier):
         for i in range(n):
             src, mods = progs.generate(rng.fork(str(i)), prof)
             plist.append({"name": "%s/%d" % (name, i), "steps": [("snip", src)], "mods": mods})
+    for name, src in feat_scope.capture_limit_programs():
+        plist.append({"name": name, "steps": [("snip", src)], "mods": [], "budget": 3000000})
     base = {}
 
     def seen(p, m, res):
